@@ -25,6 +25,10 @@ func applyKnown(w *drv.World) {
 	for _, f := range findings {
 		if ev.IsOpen("C02", f.fp) {
 			w.Avoid[f.avoid] = true
+			if f.avoid == "mark-nonphysical" {
+				// narrowed: marks on absent IDs are generated and the defective counting is followed
+				w.FollowAbsentMarks = true
+			}
 		}
 	}
 }
